@@ -90,6 +90,13 @@ def gen_case(rng, tier):
         first, second = "calc", "proj"
     elif kind == "any/any":
         first, second = rng.choice(["calc", "sel", "sort", "slice", "dedup", "proj"]), rng.choice(["calc", "sel", "sort", "slice", "dedup", "proj"])
+        if engine == "it" and rng.random() < 0.3:
+            # a user-defined Reordering / RowFilter next to a built-in operation: whatever simplify()
+            # they inherit (or the built-in inherits from their common base) must not elide either
+            if rng.random() < 0.5:
+                first = rng.choice(["rev", "cap"])
+            else:
+                second = rng.choice(["rev", "cap"])
     if kind == "sel/sel" and engine == "it" and cols and rng.random() < 0.3:
         # a guarded conjunction (the 2nd conjunct raises ZeroDivisionError on rows the guard
         # removes) followed by a selection that repeats the guard: the merged selection must
